@@ -8,6 +8,10 @@
       x/tokenfactory/keeper/msg_server.go  SudoSetDenomMetadata (CheckPermissions, then write)
       cosmos-sdk x/authz keeper.DispatchActions (MsgExec: grant lookup unless signer = grantee, then the
       inner message's own handler on the same context)
+      wasmd MsgExecuteContract on a contract that re-dispatches the messages it is given (reflect.wasm:
+      only its owner may call it, at least one message) + app/wasmext/wasm.go handleSdkMessage: every
+      message a contract dispatches — leaf OR wrapper (MsgExec, MsgExecuteContract) — must have the
+      dispatching contract as its only signer, then it is routed to its own handler
       baseapp.runTx / runMsgs: all messages of a tx run on a branch of the state that is written back only
       when every message succeeded.
 
@@ -26,14 +30,16 @@ Inductive action := Add | Remove | UnknownAction.
 Inductive gkind := GOracle | GInflEdit | GInflToggle | GMeta.
 
 (** message kinds as authz sees them (one type URL per kind; add/remove share MsgEditSudoers) *)
-Inductive mkind := KEdit | KChangeRoot | KGated (k : gkind) | KExec.
+Inductive mkind := KEdit | KChangeRoot | KGated (k : gkind) | KExec | KWasm.
 
 Inductive msg :=
 | EditSudoers (a : action) (sender : addr) (cs : list addr) (wf : bool)
     (* wf = every listed contract is a well-formed bech32 address *)
 | ChangeRoot (sender new : addr)
 | Gated (k : gkind) (sender : addr) (payload_valid : bool)
-| Exec (grantee : addr) (inner : list msg).
+| Exec (grantee : addr) (inner : list msg)
+| Wasm (sender contract : addr) (inner : list msg).
+    (* MsgExecuteContract{sender, contract, reflect_msg{inner}}: the contract dispatches [inner] *)
 
 (** state: the permission set, and one write counter per store a gated operation writes
     (the harness observes these stores through sha256 digests of their raw KV content) *)
@@ -94,6 +100,7 @@ Definition handle_leaf (s : st) (m : msg) : option st :=
   | Gated k sender pv =>
       if permitted s sender && pv then Some (bump k s) else None
   | Exec _ _ => None
+  | Wasm _ _ _ => None
   end.
 
 Definition signer (m : msg) : addr :=
@@ -102,6 +109,7 @@ Definition signer (m : msg) : addr :=
   | ChangeRoot a _ => a
   | Gated _ a _ => a
   | Exec g _ => g
+  | Wasm a _ _ => a
   end.
 
 Definition kind_of (m : msg) : mkind :=
@@ -110,6 +118,7 @@ Definition kind_of (m : msg) : mkind :=
   | ChangeRoot _ _ => KChangeRoot
   | Gated k _ _ => KGated k
   | Exec _ _ => KExec
+  | Wasm _ _ _ => KWasm
   end.
 
 Definition gkind_eqb (a b : gkind) : bool :=
@@ -120,7 +129,7 @@ Definition gkind_eqb (a b : gkind) : bool :=
 
 Definition mkind_eqb (a b : mkind) : bool :=
   match a, b with
-  | KEdit, KEdit | KChangeRoot, KChangeRoot | KExec, KExec => true
+  | KEdit, KEdit | KChangeRoot, KChangeRoot | KExec, KExec | KWasm, KWasm => true
   | KGated x, KGated y => gkind_eqb x y
   | _, _ => false
   end.
@@ -131,66 +140,107 @@ Record grant := { g_granter : addr; g_grantee : addr; g_kind : mkind }.
 Definition has_grant (g : list grant) (granter grantee : addr) (k : mkind) : bool :=
   existsb (fun x => (g_granter x =? granter) && (g_grantee x =? grantee) && mkind_eqb (g_kind x) k) g.
 
+(** the world a history runs in: the authz grants (fixed per history), the contracts that
+    re-dispatch messages with their owners (contract, owner), and the variant switch
+    [c_wguard]: handleSdkMessage applies its signer guard to EVERY message a contract dispatches
+    (true = what Gen/C16Facts.v reports for the tree: the guard dominates the router call on every
+    branch; false = the guard is skipped for MsgExec wrappers) *)
+Record cfg := { c_grants : list grant; c_owners : list (addr * addr); c_wguard : bool }.
+
+Definition mk_cfg (g : list grant) (ow : list (addr * addr)) : cfg :=
+  {| c_grants := g; c_owners := ow; c_wguard := true |}.
+
+Definition is_contract (cf : cfg) (a : addr) : bool := existsb (fun p => fst p =? a) (c_owners cf).
+
+(** reflect.wasm: "Permission denied: the sender is not the current owner" *)
+Definition owner_ok (cf : cfg) (c sender : addr) : bool :=
+  existsb (fun p => (fst p =? c) && (snd p =? sender)) (c_owners cf).
+
+Definition is_exec (m : msg) : bool := match m with Exec _ _ => true | _ => false end.
+
 (** authz DispatchActions, per inner message: implicit accept when the message's signer is the
     grantee itself, otherwise a grant (granter = signer) for that message type must exist *)
 Definition dispatch_ok (g : list grant) (grantee : addr) (m : msg) : bool :=
   (signer m =? grantee) || has_grant g (signer m) grantee (kind_of m).
 
-(** authz DispatchActions over the inner messages, [f] being the message router *)
-Definition dispatch (f : st -> msg -> option st) (g : list grant) (grantee : addr) : st -> list msg -> option st :=
+(** app/wasmext handleSdkMessage, per message dispatched by contract [c]: every signer of the
+    message — of the WRAPPER itself when it is a MsgExec / MsgExecuteContract — is the contract *)
+Definition wasm_ok (wguard : bool) (c : addr) (m : msg) : bool :=
+  (signer m =? c) || (negb wguard && is_exec m).
+
+(** a carrier running its inner messages in order on the same context: [ok] is the carrier's
+    entry test, [f] the message router *)
+Definition dispatch (f : st -> msg -> option st) (ok : msg -> bool) : st -> list msg -> option st :=
   fix go (s : st) (l : list msg) {struct l} : option st :=
     match l with
     | [] => Some s
     | m' :: r =>
-        if dispatch_ok g grantee m'
+        if ok m'
         then match f s m' with Some s' => go s' r | None => None end
         else None
     end.
 
-(** one message, possibly a (nested) MsgExec; None = the handler returned an error *)
-Fixpoint exec_msg (g : list grant) (s : st) (m : msg) {struct m} : option st :=
+(** one message, possibly a (nested) carrier; None = the handler returned an error *)
+Fixpoint exec_msg (cf : cfg) (s : st) (m : msg) {struct m} : option st :=
   match m with
   | Exec grantee ms =>
       match ms with
       | [] => None (* MsgExec.ValidateBasic: messages cannot be empty *)
-      | _ => dispatch (fun s' m' => exec_msg g s' m') g grantee s ms
+      | _ => dispatch (fun s' m' => exec_msg cf s' m') (dispatch_ok (c_grants cf) grantee) s ms
+      end
+  | Wasm sender c ms =>
+      match ms with
+      | [] => None (* reflect.wasm: "Messages empty. Must reflect at least one message" *)
+      | _ =>
+          if owner_ok cf c sender
+          then dispatch (fun s' m' => exec_msg cf s' m') (wasm_ok (c_wguard cf) c) s ms
+          else None (* not a contract, or not called by its owner *)
       end
   | _ => handle_leaf s m
   end.
 
 (** baseapp.runMsgs on the branched state *)
-Fixpoint run_msgs (g : list grant) (s : st) (tx : list msg) : option st :=
+Fixpoint run_msgs (cf : cfg) (s : st) (tx : list msg) : option st :=
   match tx with
   | [] => Some s
-  | m :: r => match exec_msg g s m with Some s' => run_msgs g s' r | None => None end
+  | m :: r => match exec_msg cf s m with Some s' => run_msgs cf s' r | None => None end
   end.
 
-(** DeliverTx: a tx without messages is refused; the branch is committed only on success *)
-Definition deliver (g : list grant) (s : st) (tx : list msg) : st * bool :=
+(** a tx is signed by the signer of each of its (top-level) messages; a contract has no key *)
+Definition signable (cf : cfg) (tx : list msg) : bool :=
+  forallb (fun m => negb (is_contract cf (signer m))) tx.
+
+(** DeliverTx: a tx without messages is refused, so is one that would need the signature of a
+    contract; the branch is committed only on success *)
+Definition deliver (cf : cfg) (s : st) (tx : list msg) : st * bool :=
   match tx with
   | [] => (s, false)
-  | _ => match run_msgs g s tx with Some s' => (s', true) | None => (s, false) end
+  | _ =>
+      if signable cf tx
+      then match run_msgs cf s tx with Some s' => (s', true) | None => (s, false) end
+      else (s, false)
   end.
 
-Fixpoint run_history (g : list grant) (s : st) (h : list (list msg)) : st * list bool :=
+Fixpoint run_history (cf : cfg) (s : st) (h : list (list msg)) : st * list bool :=
   match h with
   | [] => (s, [])
   | tx :: r =>
-      let '(s1, ok) := deliver g s tx in
-      let '(s2, oks) := run_history g s1 r in (s2, ok :: oks)
+      let '(s1, ok) := deliver cf s tx in
+      let '(s2, oks) := run_history cf s1 r in (s2, ok :: oks)
   end.
 
 (** leaves of a message tree in execution order *)
 Fixpoint leaves (m : msg) : list msg :=
   match m with
   | Exec _ ms => flat_map leaves ms
+  | Wasm _ _ ms => flat_map leaves ms
   | _ => [m]
   end.
 
 Fixpoint leaves_tx (tx : list msg) : list msg :=
   match tx with [] => [] | m :: r => leaves m ++ leaves_tx r end.
 
-(** sequential execution of leaves with no authz layer at all *)
+(** sequential execution of leaves with no carrier layer at all *)
 Fixpoint run_leaves (s : st) (l : list msg) : option st :=
   match l with
   | [] => Some s
@@ -206,3 +256,30 @@ Fixpoint list_eqb (a b : list addr) : bool :=
 
 Definition sudoers_eqb (s1 s2 : st) : bool :=
   (root s1 =? root s2) && list_eqb (contracts s1) (contracts s2).
+
+(** who really authorised what.  [wa_b cf p m]: message [m], presented by the principal [p] that the
+    enclosing carrier has authenticated, is well-authorised all the way down:
+      - the signer of [m] IS that principal (top level: the tx signature; under MsgExec: see below;
+        under a contract execution: the executing contract);
+      - under MsgExec{grantee}: every inner message is presented by its own signer, who is the
+        grantee itself or has granted that message type to the grantee;
+      - under MsgExecuteContract{sender, contract}: the sender owns the contract, and every
+        dispatched message is presented by the contract. *)
+Fixpoint wa_b (cf : cfg) (p : addr) (m : msg) {struct m} : bool :=
+  (signer m =? p) &&
+  match m with
+  | Exec ge ms =>
+      forallb (fun m' => dispatch_ok (c_grants cf) ge m' && wa_b cf (signer m') m') ms
+  | Wasm sd c ms => owner_ok cf c sd && forallb (fun m' => wa_b cf c m') ms
+  | _ => true
+  end.
+
+Definition wa_tx (cf : cfg) (tx : list msg) : bool := forallb (fun m => wa_b cf (signer m) m) tx.
+
+(** the contracts a message tree executes *)
+Fixpoint executed_contracts (m : msg) : list addr :=
+  match m with
+  | Exec _ ms => flat_map executed_contracts ms
+  | Wasm _ c ms => c :: flat_map executed_contracts ms
+  | _ => []
+  end.
